@@ -17,7 +17,7 @@ def make_programs(rng, n, nops, chain=False):
         if chain and i % 3 == 0:
             ops, exp = gen_chain(rng)
         else:
-            ops, exp = P.gen_program(rng, nops, max_chans=6, p_att=0.55)
+            ops, exp = P.gen_program(rng, nops, max_chans=6, p_att=0.55 if i % 4 != 1 else 0.8, p_poison=0.3 if i % 4 == 1 else 0.0)
         progs.append((i, ops))
         exps[i] = exp
     return progs, exps
@@ -296,6 +296,20 @@ def check_C04(chk):
         it = bad[0]
         chk.unproved("correspondence CodecCheck.check_dec: decoded value differs from Codec.decode_msg on %d of %d values" % (len(bad), len(todo)),
                      {"type": it["case"]["ty"], "bytes": it["case"]["bytes"].hex(), "atts": it["case"]["atts"], "observed": it["rec"]["out"]})
+    # values whose serialisation itself sends (nested sends with their own endpoints): every level's endpoints must arrive
+    # connected to what was embedded at that level (script driver shared with C14; successful programs only matter here)
+    from . import props_codec as PC
+    scases, sgot, sfails, stodo, sbad, serrors = PC.script_stage(chk, random.Random(chk.seed + 5), bins["default"], 1500 if thorough else 120,
+                                                                4 if thorough else 3, tag="c04script")
+    chk.coverage["nested_send_values"] = len(scases)
+    chk.coverage["traces_validated_against_impl"] += len(stodo)
+    chk.coverage["correspondence_mismatches"] += len(sbad)
+    if serrors:
+        chk.unproved("model evaluation (coqc on generated nested-send cases) failed", serrors[0][-1500:])
+    if sbad and not chk.violations:
+        c, r = sbad[0]
+        chk.unproved("correspondence TlsCheck.check_script: attachments of nested / enclosing messages differ from Tls.ipc_send on %d of %d values" % (len(sbad), len(stodo)),
+                     {"serializer_program": c["body"], "kinds": c["kinds"], "pre": c["pre"], "observed": r and r["result"]})
 
 
 def check_C11(chk):
